@@ -541,6 +541,11 @@ def judge(case, obs, a):
         # tables the model (hence the documentation) accepts: no aligned batch is served at all
         return {"status": "violation", "clause": "legal-configuration-rejected:" + obs["error"] + "@" + obs["stage"],
                 "impl": [obs["error"], obs["stage"]]}
+    if case["kind"] == "param" and not case["keys"]:
+        # a parameter loader without any key: nothing to sample and nothing to align -- whether (and where) it
+        # raises is incidental behaviour the property does not constrain (false alarm on harmless/C09-h2, which
+        # serves an empty batch where the pinned code raised in `tree_transpose`)
+        return {"status": "ok", "clause": None, "degenerate": "no-keys"}
     if (obs["error"], obs["stage"]) != (a["error"], a["stage"]):
         return {"status": "disagree", "clause": "rejection-differs", "impl": [obs["error"], obs["stage"]],
                 "model": [a["error"], a["stage"]]}
